@@ -325,6 +325,11 @@ inline bool apply_op(GridState &st, const Op &op) {
     case OP_REF_ANISO: {
         if (st.constructing || outs == 0 || g.getNumLoaded() == 0 || !st.aniso_capable()) return false;
         int out = std::min(op.output, outs - 1); if (st.spec.family == F_GLOBAL) out = std::max(out, 0);
+        { // hyperbolic contours with (partly) saturated level limits need up to (k+1)^(w_max/w_min) passes of the level loop, each O(level):
+          // it terminates but not within any test budget, so the shape is not generated (see DESIGN, "performance pathologies")
+          bool hyper = op.type == type_hyperbolic || op.type == type_iphyperbolic || op.type == type_qphyperbolic;
+          std::vector<int> cur = op.limits.empty() ? g.getLevelLimits() : op.limits; bool limited = false; for (int l : cur) if (l >= 0) limited = true;
+          if (hyper && limited) return false; }
         g.setAnisotropicRefinement(op.type, op.min_growth, out, op.limits);
         t << "RefAniso(" << type_name(op.type) << ",growth=" << op.min_growth << ",out=" << out << lim_text(op.limits) << ")"; st.n_refine++; break; }
     case OP_UPDATE: {
@@ -345,7 +350,7 @@ inline bool apply_op(GridState &st, const Op &op) {
         for (size_t i = 0; i < n; i++) c[i] = 0.125 * (double)((int)((i * 5 + op.variant * 3) % 17) - 8);
         g.setHierarchicalCoefficients(c); st.dict.clear(); st.dict_valid = false;
         t << "SetCoeff(v=" << op.variant << ")"; break; }
-    case OP_BEGIN_CONSTR: { if (st.constructing || outs == 0 || !st.spec.nested() || st.conformal_set()) return false;   // see DESIGN: conformal + construction is outside every listed property g.beginConstruction(); st.constructing = true; st.candidates.clear(); t << "BeginConstr"; break; }
+    case OP_BEGIN_CONSTR: { if (st.constructing || outs == 0 || !st.spec.nested() || st.conformal_set()) return false; /* conformal + construction: outside every listed property, see DESIGN */ g.beginConstruction(); st.constructing = true; st.candidates.clear(); t << "BeginConstr"; break; }
     case OP_CANDIDATES: {
         if (!st.constructing) return false;
         int out = std::min(op.output, outs - 1); if (st.spec.family == F_GLOBAL) out = std::max(out, 0);
